@@ -1930,7 +1930,7 @@ func farmTwinCase(tier string, c int) bool {
 }
 
 func newFarmRig(run *ev.Run, seed string) (*rig.Rig, *farmGen) {
-	r := rig.New(rig.Options{Seed: seed, NumAccounts: 12, Balances: farmBalances(rig.BondDenom, "tka", "tkb", "tkc", "rwa", "rwb", "rwc", "rwd", "rww"), InflationOff: true, InitialHeight: boundaryHeight(run.Case)})
+	r := rig.New(rig.Options{Seed: seed, NumAccounts: 12, Balances: farmBalances(rig.BondDenom, "tka", "tkb", "tkc", "rwa", "rwb", "rwc", "rwd", "rww"), InflationOff: true, InitialHeight: boundaryHeight(run.Case), SubSecond: run.Case%2 == 1})
 	g := &farmGen{run: run, r: r, tok: []string{"tka", "tkb"}, rew: []string{"rwa", "rwb", "rwc", "rwd", rig.BondDenom}, maxBits: 100, maxPools: 9, lptShare: pow2(110)}
 	g.creators = []*rig.Account{r.Acc(0), r.Acc(1)}
 	for i := 2; i <= 10; i++ {
